@@ -62,7 +62,7 @@ PROPS["C01"] = dict(
           "with 0-3 fault directives per round over the round's storage/lock operations (error or crash, applied or not applied, subset masks over the "
           "parallel tile uploads), restarts under faults and clock anomalies (stall, backwards, jump); plus an exhaustive single-fault sweep of short histories; "
           "non-trivial = >=2 committed checkpoints of different size and at least one fired fault, crash+restart, clock anomaly or tile-boundary crossing; "
-          "distinct = hash of the executed history descriptor; cases run inside a testing/synctest bubble so that 'stall until the context deadline' is an affordable fault mode; the log is sometimes created by two concurrent CreateLog calls and CreateLog is sometimes re-run over the existing log; rare rounds of several MiB; failed submissions are resubmitted; one history in ten is mirrored onto a real LocalBackend+SQLite; sequencing context cancelled before one of a round's operations; err-deadline-exceeded faults and failing retries; overlapping tile uploads (batch barrier) and rare catch-up rounds of more than five tiles"),
+          "distinct = hash of the executed history descriptor; cases run inside a testing/synctest bubble so that 'stall until the context deadline' is an affordable fault mode; the log is sometimes created by two concurrent CreateLog calls and CreateLog is sometimes re-run over the existing log; rare rounds of several MiB; failed submissions are resubmitted; one history in ten is mirrored onto a real LocalBackend+SQLite; sequencing context cancelled before one of a round's operations; err-deadline-exceeded faults and failing retries; overlapping tile uploads (batch barrier) and rare catch-up rounds of more than five tiles; a stale second server process (own cache) sequences after the log moved on: must fail fatally, the real SQLite backend's answer to its Replace is compared with the model"),
     assumptions=["the simulated lock store is a correct CAS register and in-flight operations of a crashed process take effect at the crash instant or never",
                  "leaf timestamps equal the tree head timestamp of the round that sequenced them (what the code does), used to predict roots"],
     technique="stateful property-based testing over a fault-injecting storage/lock simulator with an independent RFC 6962 model",
@@ -96,7 +96,7 @@ PROPS["C04"] = dict(
           "1-byte and 64 KiB certificates), pool sizes steered across tile boundaries, with storage/lock faults and crashes; at the instant EVERY checkpoint upload takes effect the "
           "whole storage is audited against an independent rendering (byte-exact hash tiles and data tiles, names tiles as JSON values vs crypto/x509, issuers, leaf index/timestamp), "
           "every Upload is checked write-once, every Discard must target staging/, issuers must be stored when an entry is admitted; "
-          "non-trivial = >=2 publications after creation incl. one right after a partial->full tile transition, with >=1 precertificate and >=1 entry with issuers; distinct = history descriptor hash; cases run inside a testing/synctest bubble with 'stall until the context deadline' faults; a whole round and an equal submission (naming the same issuers whenever issuersMu is free) run inside a submission's issuer upload; one history in ten is mirrored onto a real LocalBackend+SQLite; sequencing context cancelled mid-round, overlapping tile uploads (batch barrier) and catch-up rounds of more than five tiles; a second unit fabricates the right edge of logs with 2^31 .. 255*256^4 leaves and lets the server continue (leaf indexes above 2^32)"),
+          "non-trivial = >=2 publications after creation incl. one right after a partial->full tile transition, with >=1 precertificate and >=1 entry with issuers; distinct = history descriptor hash; cases run inside a testing/synctest bubble with 'stall until the context deadline' faults; a whole round and an equal submission (naming the same issuers whenever issuersMu is free) run inside a submission's issuer upload; one history in ten is mirrored onto a real LocalBackend+SQLite; sequencing context cancelled mid-round, overlapping tile uploads (batch barrier) and catch-up rounds of more than five tiles; a second unit fabricates the right edge of logs with 2^31 .. 255*256^4 leaves and lets the server continue (leaf indexes above 2^32); (fourth wave) clock anomalies as in C01; one parseable certificate in five carries a tolerated encoding defect (5-byte iPAddress name) whose names-tile line is expected"),
     assumptions=["names-tile lines are required only for certificates that crypto/x509 parses (what the code does; the public API cannot admit others)"],
     technique="stateful property-based testing with an invariant audited after every storage operation against an independent Static-CT renderer",
     units=[
@@ -111,7 +111,7 @@ PROPS["C02"] = dict(
           "of acknowledged entries, of other inline submissions), 0-3 fault directives per round, process kills right after acknowledgements with the cache kept, rolled back to "
           "before the round or to an older snapshot; every acknowledgement is checked against storage at the instant it is observed (release detection at every storage/lock operation) "
           "and against the committed tree after every later round and reload; non-trivial = an acknowledgement in a round that also had a fired fault or inline submission, or a kill after an acknowledgement; "
-          "distinct = history descriptor hash; bounded pools with low-priority submissions (rejections, evictions); precertificate chains (direct and via a precertificate signing certificate) through add-pre-chain; failed submissions are resubmitted and immediate answers are observed right after submission; err-deadline-exceeded faults and failing retries; rare rounds of more than 11000 entries; panics of the add-chain handler are judged"),
+          "distinct = history descriptor hash; bounded pools with low-priority submissions (rejections, evictions); precertificate chains (direct and via a precertificate signing certificate) through add-pre-chain; failed submissions are resubmitted and immediate answers are observed right after submission; err-deadline-exceeded faults and failing retries; rare rounds of more than 11000 entries; panics of the add-chain handler are judged; near-collision entries (same body as certificate and as precertificate under two issuers); an answer 'duplicate of a pending entry' without an equal pending entry is a violation"),
     assumptions=["releases are observed at storage/lock-operation granularity (harness-owned schedule)", "SCT signature correctness over real chains is covered by the HTTP-level unit and by C09"],
     technique="stateful property-based testing with harness-owned scheduling of concurrent submitters on a fault-injecting simulator",
     units=[
@@ -144,7 +144,7 @@ PROPS["C06"] = dict(
           "oracle: lock history is one chain that always equals previous leaves + the committing instance's pool, a loser of the compare-and-swap stops with a fatal error and acknowledges nothing, "
           "acknowledgements are backed by storage at their instant, final audit after a healthy reload. (2) generated start-up states (create over lock/storage/both/concurrently; storage behind with/without staging bundle, "
           "storage ahead, same size other root, foreign key in storage or lock, foreign name, extension line, missing checkpoint/edge tile/data tile/lock entry) must be refused or recovered as stated. "
-          "non-trivial = a schedule with a CAS conflict, or any start-up state; distinct = schedule/state descriptor hash; start-up state 'same size, other root' with and without the lock tree's staging bundle in the bucket"),
+          "non-trivial = a schedule with a CAS conflict, or any start-up state; distinct = schedule/state descriptor hash; start-up state 'same size, other root' with and without the lock tree's staging bundle in the bucket; a failed checkpoint upload after which the instance goes on, followed by a newcomer's start-up recovery with a whole round of the running instance inside it"),
     assumptions=["interleavings are explored at storage/lock-operation granularity; all instances share one object store"],
     technique="property-based testing with harness-owned interleaving of several server instances on a simulated CAS lock store",
     units=[
@@ -172,7 +172,7 @@ PROPS["C17"] = dict(
     rule=("rapid-generated arrival timelines (3-24 actions: high / low priority / duplicate submissions and cancellation, separated by 0-2.25 s of virtual time) against RunSequencer with a 1 s period inside a testing/synctest bubble, "
           "pool sizes {0,1,2,3,7}, an optional non-fatal (staging/checkpoint upload) or fatal (lock/tile) failure of a generated round, an optional read-only date crossed during the run; a model of pool occupancy predicts the source of every admission "
           "decision (admit, reject when full, evict exactly one pending low-priority entry); after synctest.Wait() no submitter whose pool was sequenced/closed may still be blocked; after a stop nothing is signed any more; "
-          "non-trivial = the pool filled up and a high-priority arrival evicted, or a stop with >=1 pending submitter; distinct = timeline descriptor hash; clock stall / step back, slow storage or lock operations (rounds longer than a period), submissions after a stop, duplicates of known entries posted to add-chain (status code and Retry-After judged); submissions that first upload a new issuer, one such upload slower than a sequencing period; panics of wait functions are judged"),
+          "non-trivial = the pool filled up and a high-priority arrival evicted, or a stop with >=1 pending submitter; distinct = timeline descriptor hash; clock stall / step back, slow storage or lock operations (rounds longer than a period), submissions after a stop, duplicates of known entries posted to add-chain (status code and Retry-After judged); submissions that first upload a new issuer, one such upload slower than a sequencing period; panics of wait functions are judged; first submissions of high-priority certificates through add-chain (handler-side priority)"),
     assumptions=["virtual time of testing/synctest; status-code mapping (503/410) is exercised by C09's HTTP harness, here the error identities are checked"],
     technique="model-based property testing under virtual time (testing/synctest)",
     units=[
